@@ -116,6 +116,23 @@ def check_case(ld, n, k, backing, all_i, res):
         if sh != lists[i]:
             res.violation('shard-differs-from-split', {**case, 'i': i},
                           {'shard': sh[:10], 'split': lists[i][:10]})
+    # what split() hands out belongs to the caller: changing that list (taking
+    # a hold-out fold, reordering) must not change what a later split / shard
+    # on the same dataset returns
+    if k >= 2 and (n + k) % 3 == 0:
+        first = ds.split(k)
+        first.pop()
+        first.reverse()
+        if first:
+            first[0] = first[-1]
+        again = [list(p) for p in ds.split(k)]
+        res.count('split_after_caller_mutation_checks')
+        if again != lists:
+            res.violation('split-result-shared-with-caller', case,
+                          {'second_split': again if n <= 12 else len(again)})
+        elif list(ds.shard(k, k - 1)) != lists[k - 1]:
+            res.violation('shard-differs-from-split', {**case, 'i': k - 1},
+                          {'after': 'caller changed the list returned by split'})
     # out-of-range shard index must be refused
     for i in (k, -k - 1):
         try:
